@@ -33,8 +33,9 @@ def close(P, x, y, tol):
         d2 = d2 + (a - b) * (a - b)
         n2 = n2 + a * a
     nd, nx = np.sqrt(d2), np.sqrt(n2)
-    # nd / max(nx, tol) < tol   <=>   nd < tol * max(nx, tol)
-    return P.either(P.both(nx >= tol, nd < tol * nx), P.both(nx < tol, nd < tol * tol))
+    # |x - y| / max(|x|, tol) < tol ; the max is decided on the current path (the same comparison the code makes)
+    M = tol if P.is_true(tol > nx) else nx
+    return nd / M < tol
 
 
 def safe(P, tag, thunk):
